@@ -184,31 +184,64 @@ func c03Window(c *Ctx, m *searchModel, rule string) {
 					if side.from == ai {
 						// the running alpha: the parameter, or what the loop / stand-pat raised it to
 						// (phi of, or Max with, values that start from the parameter)
-						var reaches func(v ssa.Value, seen map[ssa.Value]bool) bool
-						reaches = func(v ssa.Value, seen map[ssa.Value]bool) bool {
+						var reachesT func(v, target ssa.Value, seen map[ssa.Value]bool, depth int) bool
+						reachesT = func(v, target ssa.Value, seen map[ssa.Value]bool, depth int) bool {
 							v = stripConv(v)
-							if seen[v] {
+							if seen[v] || depth > 3 {
 								return false
 							}
 							seen[v] = true
-							if v == ssa.Value(fn.Params[ai]) {
+							if v == target {
 								return true
 							}
 							var ds []ssa.Value
 							resolveDefs(v, map[ssa.Value]bool{}, &ds)
 							for _, d := range ds {
-								if d != v && reaches(d, seen) {
+								if d != v && reachesT(d, target, seen, depth) {
 									return true
 								}
-								if call, ok := d.(*ssa.Call); ok && call.Call.StaticCallee() != nil && call.Call.StaticCallee().Name() == "Max" {
+								call, ok := d.(*ssa.Call)
+								if !ok || call.Call.StaticCallee() == nil {
+									continue
+								}
+								h := call.Call.StaticCallee()
+								if h.Name() == "Max" {
 									for _, a := range call.Call.Args {
-										if reaches(a, seen) {
+										if reachesT(a, target, seen, depth) {
 											return true
 										}
+									}
+									continue
+								}
+								// a helper of the search's package the raising step was moved into: its result is its own
+								// parameter raised the same way, and that parameter is handed the running alpha
+								if h.Pkg == nil || h.Pkg != fn.Pkg || h.Blocks == nil || h == fn || !types.Identical(h.Signature.Results().At(0).Type(), fn.Params[ai].Type()) || h.Signature.Results().Len() != 1 {
+									continue
+								}
+								for i, hp := range h.Params {
+									if i >= len(call.Call.Args) || !types.Identical(hp.Type(), fn.Params[ai].Type()) {
+										continue
+									}
+									all, nret := true, 0
+									for _, hb := range h.Blocks {
+										for _, hi := range hb.Instrs {
+											if ret, ok := hi.(*ssa.Return); ok && len(ret.Results) == 1 {
+												nret++
+												if !reachesT(ret.Results[0], hp, map[ssa.Value]bool{}, depth+1) {
+													all = false
+												}
+											}
+										}
+									}
+									if all && nret > 0 && reachesT(call.Call.Args[i], target, seen, depth) {
+										return true
 									}
 								}
 							}
 							return false
+						}
+						reaches := func(v ssa.Value, seen map[ssa.Value]bool) bool {
+							return reachesT(v, ssa.Value(fn.Params[ai]), seen, 0)
 						}
 						if reaches(base, map[ssa.Value]bool{}) {
 							baseOK = true
